@@ -17,7 +17,8 @@ unchanged; (2) renderings of a number in the radices the lexer knows denote the 
 token behind an `Eol` (or at the very start of the body), and the parser — shown by a relational pass
 over its model, `Proofs/ParserEol` — then returns the same statements up to their `line` fields, the
 same recorded names, or fails as before (`C20_blank_line_insert`); the `line` of every row is given, for
-both texts, by `C19_source_line`.  Not covered by a theorem: blank space inside the header line itself.
+both texts, by `C19_source_line`.  (5) blanks inserted in the header line, anywhere but inside a name, change nothing but byte offsets
+(`C20_header_blanks`).
 -/
 namespace Dtr
 
@@ -320,5 +321,50 @@ theorem C20_run_ignores_lines {δ : Type} (tc tc' : TestCase) (h : tc'.er = tc.e
       endN tc' drv fuel n s' d1 = endN tc drv fuel n s d1 := by
   refine ⟨?_, fun n s s' d1 hs => runN_er tc tc' h drv fuel n s s' d1 hs⟩
   rw [← tryNew_er, ← tryNew_er, h]
+
+/-- **Blank space in the header line**: let the text be blank lines `P`, then `A ++ B` with `A` the part of
+the header line in front of the insertion point (no newline in it), the point not being inside a name.
+Inserting any run of blanks `w` there leaves the verdict unchanged, and an accepted test is the same test —
+statements with their lines, header, recorded names; only byte offsets of later error messages move. -/
+theorem C20_header_blanks (P A B w : Str) (hP : ∀ c ∈ P, isBlank c = true ∨ c = '\n')
+    (hA : ∀ c ∈ A, c ≠ '\n') (hbd : HdrBoundary A B) (hw : ∀ b ∈ w, isBlank b = true) :
+    (∃ p p', parseTest (P ++ (A ++ B)) = .ok p ∧ parseTest (P ++ (A ++ (w ++ B))) = .ok p' ∧ p'.core = p.core) ∨
+    ((∀ p, parseTest (P ++ (A ++ B)) ≠ .ok p) ∧ (∀ p, parseTest (P ++ (A ++ (w ++ B))) ≠ .ok p)) := by
+  have h1 := parseHeaderAll_lead P (A ++ B) hP
+  have h2 := parseHeaderAll_lead P (A ++ (w ++ B)) hP
+  have hs := parseHeader_ins w hw ((A ++ B).length + 1) (utf8Len P) (utf8Len P) (1 + nlCount P) [] [] A B rfl hA hbd
+    (Nat.lt_succ_self _)
+  have e : (A ++ (w ++ B)).length + 1 = (A ++ B).length + 1 + w.length := by simp; omega
+  rw [← e, ← h1, ← h2] at hs
+  unfold parseTest
+  cases ha : parseHeaderAll (P ++ (A ++ B)) with
+  | err sp =>
+    cases hb : parseHeaderAll (P ++ (A ++ (w ++ B))) with
+    | err sp' => right; exact ⟨fun p hp => by simp at hp, fun p hp => by simp at hp⟩
+    | ok n l o r => rw [ha, hb] at hs; exact hs.elim
+  | ok n1 l1 o1 r1 =>
+    cases hb : parseHeaderAll (P ++ (A ++ (w ++ B))) with
+    | err sp' => rw [ha, hb] at hs; exact hs.elim
+    | ok n2 l2 o2 r2 =>
+      rw [ha, hb] at hs
+      obtain ⟨hn, hl, hr⟩ := hs
+      subst hl; subst hr
+      simp only
+      have htok : (lexBodyAll o2 r2).map absTok = (lexBodyAll o1 r2).map absTok := by
+        apply map_absTok_of_kt; rw [lexBodyAll_kt, lexBodyAll_kt]
+      rw [htok, hn]
+      cases hpb : parseBody (n1.map (·.1)) l2 ((lexBodyAll o1 r2).map absTok) with
+      | ok b st =>
+        left
+        refine ⟨_, _, rfl, rfl, ?_⟩
+        simp only [Parsed.core, hn, List.map_map, Function.comp_def]
+      | err t l => right; exact ⟨fun p hp => by simp at hp, fun p hp => by simp at hp⟩
+      | panic m => right; exact ⟨fun p hp => by simp at hp, fun p hp => by simp at hp⟩
+      | fuel => right; exact ⟨fun p hp => by simp at hp, fun p hp => by simp at hp⟩
+
+/-- the hypotheses are met: two blanks inserted between the names `A` and `B` of a header behind a blank line -/
+example : (∀ c ∈ " \n".toList, isBlank c = true ∨ c = '\n') ∧ (∀ c ∈ "A".toList, c ≠ '\n') ∧
+    HdrBoundary "A".toList " B\n1 0\n".toList ∧ (∀ b ∈ "  ".toList, isBlank b = true) := by
+  refine ⟨by decide, by decide, Or.inr (Or.inr (Or.inr ⟨' ', "B\n1 0\n".toList, rfl, by decide⟩)), by decide⟩
 
 end Dtr
